@@ -270,7 +270,7 @@ func opScenario(r *Run, mode string) {
 	var outKeys []int64
 	nOut := 0
 	produce := func(ctx execution.ProduceContext, rec execution.Record) error {
-		r.Log("  out %s", Msg{Kind: MsgRec, Values: rec.Values, Retr: rec.Retraction, ET: rec.EventTime})
+		r.SinkLog("  out %s", Msg{Kind: MsgRec, Values: rec.Values, Retr: rec.Retraction, ET: rec.EventTime})
 		nOut++
 		d := 1
 		if rec.Retraction {
@@ -294,7 +294,7 @@ func opScenario(r *Run, mode string) {
 		return nil
 	}
 	metaSend := func(ctx execution.ProduceContext, msg execution.MetadataMessage) error {
-		r.Log("  out wm(%s)", Sec(msg.Watermark))
+		r.SinkLog("  out wm(%s)", Sec(msg.Watermark))
 		nOut++
 		if mode == "C18" && msg.Watermark.Before(lastWM) {
 			r.Violate("C18", "watermark_regressed", attrs, "watermark %s emitted after %s", Sec(msg.Watermark), Sec(lastWM))
